@@ -60,7 +60,7 @@ import (
 func init() {
 	core.Register(&core.Prop{
 		ID:    "C20",
-		Level: "fault_enumeration",
+		Level: "exploration",
 		Rule: "schema list: one case = one generated well-formed response frame of one (api, version) the reference codec has a schema for (every array/string/bytes/tag buffer non-empty at least once, Fetch frames carrying v2 batches, compressed batches, legacy messages and wrappers) and ALL its mutants: every length/count field (frame size, string/bytes/array length fixed and compact, tagged-field count and size, record-set size, batch length, message size, record count, per-record varints) x every value of the quantifier (-1,-2,0,len-1,len+1,remaining+1,2^15-1,2^24,2^31-1,-2^31; varints also 2^31,2^32,2^63-1,2^63,2^64-1,11 bytes unterminated), varints re-encoded with the size prefixes kept consistent and also left stale, checksum-covered fields with the checksum stale (claim) and recomputed (informational); " +
 			"blind list: library-encoded walker-generated responses of every registered (api, version), mutated at byte offsets as if an int16/int32/uvarint length started there; 5% of the schema mutants of APIs kafka.Client can call are also sent by a fake broker through kafka.Client -> kafka.Transport. " +
 			"Every input is decoded in a helper process (4 GiB address space, GOMAXPROCS=1). signature = (api, version, field role, value class, outcome class); non-trivial = a mutated frame (the unmutated base frames are evaluated but not counted as distinct)",
@@ -444,7 +444,7 @@ func runC20(c *core.Ctx) {
 
 	// ---- schema list: field-map driven mutation of reference-encoded frames
 	sp := c20Pairs(true)
-	reps := c.N(3, 140)
+	reps := c.N(3, 420)
 	c.Cases("schema", len(sp)*reps, func(k *core.Case) {
 		p := sp[k.Idx%len(sp)]
 		frame, fields := c20SchemaFrame(k.R, p.API, int(p.Ver))
@@ -477,7 +477,7 @@ func runC20(c *core.Ctx) {
 
 	// ---- blind list: library-encoded frames of every registered type
 	bp := c20Pairs(false)
-	breps := c.N(1, 5)
+	breps := c.N(1, 15)
 	perCase := c.N(40, 400)
 	c.Cases("blind", len(bp)*breps, func(k *core.Case) {
 		p := bp[k.Idx%len(bp)]
